@@ -166,6 +166,32 @@ def _week(ctx) -> None:
                    f"body {src}; the {side} of the week is self if it already falls on {var}, else self.{nav}({var}), then {day}('day')",
                    m.loc(fn))
     hm = pmod("helpers")
+    # the two setters on values: each day of the week is stored under the right name (and only there), anything else is refused with ValueError
+    from ..rules import calstub, minieval
+    funcs = {st.name: st for st in hm.top() if isinstance(st, ast.FunctionDef)}
+    for q, var, other in (("week_starts_at", "_WEEK_STARTS_AT", "_WEEK_ENDS_AT"), ("week_ends_at", "_WEEK_ENDS_AT", "_WEEK_STARTS_AT")):
+        fn = hm.func(q)
+        bad = []
+        try:
+            for wd in list(calstub.WEEKDAYS) + [-1, 7, 8]:
+                pend = minieval.Stub(_WEEK_STARTS_AT="unset", _WEEK_ENDS_AT="unset")
+                glob = {**minieval.module_consts(hm), "WeekDay": calstub.WEEKDAY, "pendulum": pend, "ValueError": ValueError, "setattr": setattr, "getattr": getattr, "int": int}
+                try:
+                    minieval.call(fn, [wd], {}, {**funcs, "$globals": glob})
+                    out = "set"
+                except minieval.Raised as e:
+                    out = e.exc_name
+                valid = isinstance(wd, calstub.WD)
+                if valid and (out != "set" or getattr(pend, var) is not wd or getattr(pend, other) != "unset"):
+                    bad.append(f"{q}({wd!r}): {out}; pendulum.{var}={getattr(pend, var)!r}, pendulum.{other}={getattr(pend, other)!r}")
+                elif not valid and out != "ValueError":
+                    bad.append(f"{q}({wd!r}): {out} (expected ValueError)")
+        except (core.Unsupported, KeyError, TypeError, AttributeError, ValueError, IndexError, RecursionError) as e:
+            ctx.unverified("SETTER.tabulated", q, f"outside the checker's interpreter: {type(e).__name__}: {str(e)[:160]}", hm.loc(fn))
+        else:
+            ctx.ob("SETTER.tabulated", q, not bad, "7 days of the week and 3 values outside: " + (f"wrong: {bad[:3]}" if bad else f"each day stored as pendulum.{var} only, the others refused with ValueError"), hm.loc(fn))
+            if not bad:
+                ctx.established(("WEEK.setter",), q, "SETTER.tabulated")
     for q, var in (("week_starts_at", "_WEEK_STARTS_AT"), ("week_ends_at", "_WEEK_ENDS_AT")):
         fn = hm.func(q)
         src = [nun(s) for s in core.body_no_doc(fn)]
